@@ -269,6 +269,13 @@ Fixpoint check_hist_p (tab : list (N * N * list N)) (U : universe) (y : psys)
     check_hist_p tab U y2 rest
   end.
 
+(* the build of one world on nothing, compared with a real build from scratch of the same sources *)
+Definition check_scratch_p (tab : list (N * N * list N)) (U : universe) (src env : list (N * N))
+           (eatt est : list (N * bool)) : bool :=
+  let ys := p_build mix_run (plan_tab tab) U (p_resync U (p_empty U) (src_of src, src_of env)) in
+  forallb (fun x => Bool.eqb (attached U ys (fst x)) (snd x)) eatt &&
+  forallb (fun x => Bool.eqb (attached U ys (fst x) && is_succ (stt (pbase ys) (fst x))) (snd x)) est.
+
 Fixpoint trace_hist_p (tab : list (N * N * list N)) (U : universe) (y : psys)
          (phases : list phase_spec_p)
   : list (list (N * bool) * list (N * bool) * list (N * bool) * list (N * bool)) :=
